@@ -58,9 +58,11 @@ type timer struct {
 type point struct {
 	nalts     int
 	curAlts   int  // alternatives that belong to the running thread (0: blocked / finished)
+	defAlts   int  // alternatives of the default thread (running thread, else lowest id): free
 	timerAlt  bool // last alternative is "earliest timer fires now"
 	preBefore int
 	earlyBefore int
+	ndBefore  int
 }
 
 // Event is one scheduler transition (only recorded in trace mode).
@@ -270,6 +272,7 @@ type Exec struct {
 	Panic       string
 	Preemptions int
 	EarlyTimers int
+	Switches    int // non-default thread choices at points where the running thread was blocked
 	Elapsed     time.Duration // virtual time at the end
 	TraceHash   uint64
 	Trace       []Event
@@ -358,7 +361,7 @@ func run(cfg *Config, prefix []int, body func(), trace bool) *Exec {
 	}
 	GoNamed("main", body)
 	x := &Exec{}
-	pre, early := 0, 0
+	pre, early, nd := 0, 0, 0
 	var alts []alt
 	for {
 		alts = alts[:0]
@@ -415,12 +418,23 @@ func run(cfg *Config, prefix []int, body func(), trace bool) *Exec {
 					panic(fmt.Sprintf("vs: replay divergence at choice %d: want alt %d of %d", i, ci, nalts))
 				}
 			}
+			defAlts := curAlts
+			if defAlts == 0 {
+				for _, a := range alts {
+					if a.t != alts[0].t {
+						break
+					}
+					defAlts++
+				}
+			}
 			s.choices = append(s.choices, ci)
-			s.points = append(s.points, point{nalts: nalts, curAlts: curAlts, timerAlt: timerAlt, preBefore: pre, earlyBefore: early})
+			s.points = append(s.points, point{nalts: nalts, curAlts: curAlts, defAlts: defAlts, timerAlt: timerAlt, preBefore: pre, earlyBefore: early, ndBefore: nd})
 			if timerAlt && ci == nalts-1 {
 				early++
 			} else if curAlts > 0 && ci >= curAlts {
 				pre++
+			} else if curAlts == 0 && ci >= defAlts {
+				nd++
 			}
 		}
 		if timerAlt && ci == nalts-1 {
@@ -508,6 +522,7 @@ func run(cfg *Config, prefix []int, body func(), trace bool) *Exec {
 	x.Events = s.events
 	x.Preemptions = pre
 	x.EarlyTimers = early
+	x.Switches = nd
 	x.Elapsed = time.Duration(s.now)
 	x.TraceHash = s.thash
 	x.Trace = s.trace
@@ -570,6 +585,8 @@ func WatchdogIdle() {
 type Config struct {
 	P          int           // preemption bound
 	T          int           // early-timer bound
+	N          int           // bound on non-default thread choices when the running thread blocks (0: unbounded, -1: none allowed)
+	D          int           // bound on P+N together (0: none)
 	Horizon    time.Duration // virtual horizon (default 1h)
 	MaxEvents  int           // per execution (livelock guard, default 100000)
 	Shard      int
@@ -595,6 +612,7 @@ type Found struct {
 	Choices     []int
 	Preemptions int
 	EarlyTimers int
+	Switches    int
 	Count       int64
 }
 
@@ -671,12 +689,12 @@ func Explore(cfg Config, body func(), check func(x *Exec) (string, *Violation)) 
 			rep.Outcomes[key]++
 			if v != nil {
 				f := rep.Found[v.Sig]
-				if f == nil || x.Preemptions+x.EarlyTimers < f.Preemptions+f.EarlyTimers {
+				if f == nil || x.Preemptions+x.EarlyTimers+x.Switches < f.Preemptions+f.EarlyTimers+f.Switches {
 					n := int64(0)
 					if f != nil {
 						n = f.Count
 					}
-					f = &Found{Violation: *v, Choices: append([]int{}, x.Choices...), Preemptions: x.Preemptions, EarlyTimers: x.EarlyTimers, Count: n}
+					f = &Found{Violation: *v, Choices: append([]int{}, x.Choices...), Preemptions: x.Preemptions, EarlyTimers: x.EarlyTimers, Switches: x.Switches, Count: n}
 					rep.Found[v.Sig] = f
 				}
 				f.Count++
@@ -693,13 +711,21 @@ func Explore(cfg Config, body func(), check func(x *Exec) (string, *Violation)) 
 		for i := len(prefix); i < len(x.points); i++ {
 			p := x.points[i]
 			for a := 1; a < p.nalts; a++ {
-				pc, tc := p.preBefore, p.earlyBefore
+				pc, tc, nc := p.preBefore, p.earlyBefore, p.ndBefore
 				if p.timerAlt && a == p.nalts-1 {
 					tc++
 				} else if p.curAlts > 0 && a >= p.curAlts {
 					pc++
+				} else if p.curAlts == 0 && a >= p.defAlts {
+					nc++
 				}
 				if pc > cfg.P || tc > cfg.T {
+					continue
+				}
+				if cfg.N > 0 && nc > cfg.N || cfg.N < 0 && nc > 0 {
+					continue
+				}
+				if cfg.D > 0 && pc+nc > cfg.D {
 					continue
 				}
 				np := make([]int, i+1)
